@@ -167,7 +167,9 @@ func sameValue(what string, x, y poly.Sequence) error {
 func throughJSON(x poly.Sequence) (poly.Sequence, error) {
 	b, err := json.Marshal(x)
 	if err != nil {
-		return poly.Sequence{}, vk.Harnessf("json.Marshal: %v", err)
+		// the value holds strings, integers, booleans, lists and string maps only: that it cannot be serialised is not the
+		// harness's doing but the library's (a marshaller of its own), and "serialising any annotated sequence" failed
+		return poly.Sequence{}, vk.Errf("json.Marshal of the annotated sequence fails: %v", err)
 	}
 	buf, intact := vk.Guarded(b) // the front part of a larger buffer of the caller's
 	y := polyjson.Parse(buf)
@@ -393,6 +395,7 @@ var textGen = rapid.OneOf(
 	rapid.StringOfN(rapid.RuneFrom([]rune("<>&\"'\\/\t\n\r   abcXYZ012")), 0, 12, -1),
 	rapid.StringOfN(rapid.RuneFrom([]rune("αβγδ→日本語éüñ🧬 xyz")), 0, 12, -1),
 	rapid.Just(""),
+	rapid.SampledFrom(vk.Placeholders), // "unknown", ".", "NaN", "-Inf", "null", "0" ...: text like any other
 	// code points that tools like to treat specially: byte order mark / zero-width no-break space, zero-width space and
 	// joiners, soft hyphen, no-break space, next line, directional marks, word joiner, replacement character,
 	// non-characters, private use, the last code point, NUL and DEL
